@@ -21,7 +21,7 @@ def main():
         m = json.load(open(mp))
         sid = os.path.basename(d)
         note = m.get("notes", "")
-        if re.match(r"(?i)\s*(missed|hand universes)", note):
+        if re.match(r"(?i)\s*(missed|hand universes|not tried)", note):
             missed += 1
         else:
             first += 1
